@@ -15,7 +15,11 @@ import (
 // ---- C17: proxy hygiene ---------------------------------------------------------
 
 type C17Case struct {
-	Mode string `json:"mode"` // spoof | badpeer | reattach | cancel
+	// DeafRead: the bad peer's transport ignores the context passed to Read (as a net.Conn without deadlines does)
+	DeafRead bool `json:"deaf_read,omitempty"`
+	// ErrKind: the error value the failing transport returns (kit.FaultErrKinds)
+	ErrKind string `json:"err_kind,omitempty"`
+	Mode    string `json:"mode"` // spoof | badpeer | reattach | cancel
 	// spoof
 	Spoof string `json:"spoof"` // other-source | empty-source | no-header | unattached-source
 	// badpeer
@@ -31,6 +35,8 @@ type C17Case struct {
 
 func genC17(t *rapid.T) C17Case {
 	c := C17Case{Mode: rapid.SampledFrom([]string{"spoof", "badpeer", "reattach", "cancel", "attach-race"}).Draw(t, "mode"), Ser: rapid.Bool().Draw(t, "ser")}
+	c.ErrKind = rapid.SampledFrom(kit.FaultErrKinds).Draw(t, "err_kind")
+	c.DeafRead = rapid.Bool().Draw(t, "deaf_read")
 	c.Spoof = rapid.SampledFrom([]string{"other-source", "empty-source", "no-header", "unattached-source"}).Draw(t, "spoof")
 	c.Role = rapid.SampledFrom([]string{"stuck-writer", "failing-reader", "failing-writer", "dial-error", "slow-dial", "slow-failing-dial", "both-fail-busy"}).Draw(t, "role")
 	c.OldFailsFirst = rapid.Bool().Draw(t, "old_first")
@@ -45,6 +51,7 @@ func pxEnv(from, to string, tok int) *kit.Rpc {
 }
 
 func execC17(t *testing.T, c C17Case) (v Verdict) {
+	defer kit.UseFaultKind(c.ErrKind)()
 	var disconnects, dials []string
 	res := kit.Bubble(t, func() {
 		bg := context.Background()
@@ -124,6 +131,11 @@ func execC17(t *testing.T, c C17Case) (v Verdict) {
 			}
 			honest("after")
 		case "badpeer":
+			if c.DeafRead {
+				w.mu.Lock()
+				w.deaf = map[string]bool{"bad": true}
+				w.mu.Unlock()
+			}
 			switch c.Role {
 			case "stuck-writer":
 				bad := w.attach("bad")
@@ -321,7 +333,11 @@ func execC17(t *testing.T, c C17Case) (v Verdict) {
 	case "reattach":
 		label += fmt.Sprintf("/old_first=%v/%s", c.OldFailsFirst, c.FailKind)
 	}
-	v.Info = kit.CaseInfo{Labels: []string{label}, NonTrivial: true, Key: fmt.Sprintf("%+v", c), Sample: c}
+	labels := []string{label}
+	if c.Mode == "badpeer" {
+		labels = append(labels, fmt.Sprintf("badpeer.deaf_read=%v", c.DeafRead))
+	}
+	v.Info = kit.CaseInfo{Labels: labels, NonTrivial: true, Key: fmt.Sprintf("%+v", c), Sample: c}
 	return
 }
 
